@@ -87,11 +87,11 @@ type metaBlk struct {
 
 // one OnNotarizedBlocks call = a list of meta blocks (possibly empty).
 var notifs = [][]metaBlk{
-	{{"X1", 1, []listing{{1, 0}}}},                          // m1 at source (meta nonce 1: lowest accepted nonce)
-	{{"X2", 52, []listing{{0, 0}}}},                         // m1 at destination
-	{{"X3", 53, []listing{{1, 0}, {0, 0}}}},                 // m1 at source and destination in one meta block
-	{{"X4", 54, []listing{{0, 1}}}},                         // m2 (intra-shard: both sides)
-	{{"X5", 55, []listing{{0, 0}, {0, 1}}}},                 // shard-0 block with m1 (destination) and m2
+	{{"X1", 1, []listing{{1, 0}}}},                                 // m1 at source (meta nonce 1: lowest accepted nonce)
+	{{"X2", 52, []listing{{0, 0}}}},                                // m1 at destination
+	{{"X3", 53, []listing{{1, 0}, {0, 0}}}},                        // m1 at source and destination in one meta block
+	{{"X4", 54, []listing{{0, 1}}}},                                // m2 (intra-shard: both sides)
+	{{"X5", 55, []listing{{0, 0}, {0, 1}}}},                        // shard-0 block with m1 (destination) and m2
 	{{"X6", 56, []listing{{1, 0}}}, {"X7", 57, []listing{{0, 1}}}}, // one call, two meta blocks
 	{}, // empty notification
 }
@@ -127,7 +127,7 @@ func init() {
 	}
 }
 
-func blockHash(b blk) []byte { return []byte("hash-of-block-" + b.name) }
+func blockHash(b blk) []byte    { return []byte("hash-of-block-" + b.name) }
 func metaHash(m metaBlk) []byte { return []byte("hash-of-meta-" + m.name) }
 
 func newRepo() dblookupext.HistoryRepository {
@@ -190,10 +190,10 @@ type delivery struct {
 }
 
 type ref struct {
-	recs      [2][]int          // per miniblock: sequence positions of records containing it
-	recBlk    [2][]int          // ... and the block recorded there
-	deliv     [2][2][]delivery  // per miniblock, per side
-	ntfAt     []int             // positions of all OnNotarizedBlocks calls
+	recs      [2][]int         // per miniblock: sequence positions of records containing it
+	recBlk    [2][]int         // ... and the block recorded there
+	deliv     [2][2][]delivery // per miniblock, per side
+	ntfAt     []int            // positions of all OnNotarizedBlocks calls
 	blocksRec map[int]bool
 }
 
